@@ -613,13 +613,28 @@ class BzrUploader:
                 else:
                     raise NotImplementedError
 
+            recreated = []
             for change in changes.renamed:
                 if self.is_ignored(change.path[0]) and self.is_ignored(change.path[1]):
                     if not self.quiet:
                         self.outf.write(f"Ignoring {change.path[0]}\n")
                         self.outf.write(f"Ignoring {change.path[1]}\n")
                     continue
-                if change.changed_content:
+                if change.kind[0] != change.kind[1] or (
+                    change.kind[1] == "symlink" and change.changed_content
+                ):
+                    # A rename cannot turn the remote entry into the new one:
+                    # remove it and create the new entry with the additions.
+                    if change.kind[0] == "directory":
+                        self.delete_remote_dir_maybe(change.path[0])
+                    else:
+                        self.delete_remote_file(change.path[0])
+                    recreated.append(change)
+                    continue
+                if change.changed_content or (
+                    change.kind[1] == "file"
+                    and change.executable[0] != change.executable[1]
+                ):
                     # We update the change.path[0] content because renames and
                     # deletions are differed.
                     self.upload_file(change.path[0], change.path[1])
@@ -654,7 +669,9 @@ class BzrUploader:
                 else:
                     raise NotImplementedError
 
-            for change in changes.added + changes.copied:
+            for change in sorted(
+                changes.added + changes.copied + recreated, key=lambda c: c.path[1]
+            ):
                 if self.is_ignored(change.path[1]):
                     if not self.quiet:
                         self.outf.write(f"Ignoring {change.path[1]}\n")
